@@ -131,6 +131,11 @@ def _merge(a: dict, b: dict) -> dict:
 	return {k: a[k] + b[k] for k in ('failures', 'machinery', 'programs', 'results')}
 
 
+def _enumerate_index_redeclared(f: dict) -> bool:
+	m = re.search(r"redefinition of '(\w+)'", f['detail']) if f['clause'] == 'CompilerAccepts' else None
+	return bool(m) and len(re.findall(rf'\bfor {m.group(1)}, \w+ in enumerate\(', f['text'])) >= 2
+
+
 def culprit(fs: list[dict]) -> str:
 	"""the operation common to the failing programs of one clause (a failure of one operation shows in every program that uses it)"""
 	counts: dict[str, int] = {}
@@ -145,7 +150,7 @@ def run_containers(ctx: Ctx) -> tuple[list[Violation], dict]:
 	two, _ = load('PyCont_2.cfg')
 	rnd = random.Random(ctx.seed)
 	doubled = [c for c in two if c['ops'][0] == c['ops'][1]]      # the same operation twice: names declared by an operation meet themselves
-	two = (doubled[::2] if ctx.quick else doubled) + rnd.sample(two, 300 if ctx.quick else min(len(two), 12000))
+	two = doubled + rnd.sample(two, 300 if ctx.quick else min(len(two), 12000))
 	cases = cases + two
 	batches = [(cases[i:i + BATCH], i, argv) for i in range(0, len(cases), BATCH)]
 	with ProcessPoolExecutor(max_workers=16) as ex:
@@ -163,6 +168,14 @@ def run_containers(ctx: Ctx) -> tuple[list[Violation], dict]:
 		by_clause.setdefault(f['clause'], []).append(f)
 	for clause, fs in sorted(by_clause.items()):
 		rest = list(fs)
+		# a failure whose cause is visible in the compiler's message and the program text is identified by that shape,
+		# whichever operation brought the shape about: two enumerate loops over the same index name in one function
+		# (known finding CompilerAccepts:container-op:enum) also arise from any other operation that loops with enumerate
+		shaped = [f for f in rest if _enumerate_index_redeclared(f)]
+		if shaped:
+			rest = [f for f in rest if not _enumerate_index_redeclared(f)]
+			s = min(shaped, key=lambda f: len(f['text']))
+			violations.append(Violation(f'{clause}:container-op:enum', clause, f'{s["detail"]} on {s["text"]!r} ({len(shaped)} programs loop twice with enumerate over the same index name)', {'text': s['text'], 'emitted': s.get('emitted', '')}))
 		while rest:
 			singles = [f for f in rest if '+' not in f['kind']]
 			op = singles[0]['kind'] if singles else culprit(rest)
